@@ -102,15 +102,24 @@ var (
 		makeKey(sysl.Expr_BinExpr_FLATTEN, ValueSet, ValueNoArg):  flattenSetSet, // empty list
 		makeKey(sysl.Expr_BinExpr_FLATTEN, ValueSet, ValueSet):    flattenSetSet,
 		makeKey(sysl.Expr_BinExpr_WHERE, ValueList, ValueNoArg):   whereList,
+		makeKey(sysl.Expr_BinExpr_WHERE, ValueList, ValueBool):    whereList,
+		makeKey(sysl.Expr_BinExpr_WHERE, ValueList, ValueInt):     whereList,
+		makeKey(sysl.Expr_BinExpr_WHERE, ValueList, ValueFloat):   whereList,
 		makeKey(sysl.Expr_BinExpr_WHERE, ValueList, ValueList):    whereList,
+		makeKey(sysl.Expr_BinExpr_WHERE, ValueList, ValueSet):     whereList,
 		makeKey(sysl.Expr_BinExpr_WHERE, ValueList, ValueString):  whereList,
 		makeKey(sysl.Expr_BinExpr_WHERE, ValueList, ValueMap):     whereList,
+		makeKey(sysl.Expr_BinExpr_WHERE, ValueList, ValueNull):    whereList,
 		makeKey(sysl.Expr_BinExpr_WHERE, ValueMap, ValueNoArg):    whereMap,
 		makeKey(sysl.Expr_BinExpr_WHERE, ValueSet, ValueNoArg):    whereSet,
+		makeKey(sysl.Expr_BinExpr_WHERE, ValueSet, ValueBool):     whereSet,
+		makeKey(sysl.Expr_BinExpr_WHERE, ValueSet, ValueList):     whereSet,
+		makeKey(sysl.Expr_BinExpr_WHERE, ValueSet, ValueSet):      whereSet,
 		makeKey(sysl.Expr_BinExpr_WHERE, ValueSet, ValueMap):      whereSet,
 		makeKey(sysl.Expr_BinExpr_WHERE, ValueSet, ValueInt):      whereSet,
 		makeKey(sysl.Expr_BinExpr_WHERE, ValueSet, ValueFloat):    whereSet,
 		makeKey(sysl.Expr_BinExpr_WHERE, ValueSet, ValueString):   whereSet,
+		makeKey(sysl.Expr_BinExpr_WHERE, ValueSet, ValueNull):     whereSet,
 	}
 )
 
